@@ -15,6 +15,8 @@ From WM Require Import Base.Prelude Message.Model Handler.RouterHandle Handler.R
      Pipeline.Model Pipeline.Proofs Pipeline.Final Pipeline.SubLink Pipeline.ImmModel Pipeline.ImmProofs Pipeline.CtxModel Pipeline.CtxProofs GoChannel.SubCtx
      Corr.C01 Pipeline.Example Pipeline.ProductModel Pipeline.ProductProofs Pipeline.ProductExample.
 
+From WM Require GoChannel.Compose Pipeline.ComposeRefine.
+
 Section C01.
   Context {M : Type}.
   Variable hf : nat -> M -> list M.
@@ -231,6 +233,52 @@ Example C01_product_witness :
   /\ map (fun d => (d_call d, d_final d)) (xlog px_run) = [(0, Nacked); (1, Acked)]
   /\ abs 0 (xtop px_run 0) = [] /\ xnsrc px_run = 1.
 Proof. exact product_witness. Qed.
+
+(** ** the topic interface is satisfied by the REAL composed GoChannel model (GoChannel/Compose.v:
+    registry x one send protocol per subscription, with every teardown, Close of other clients,
+    persistent replay and blocking wait).  For a subscription x that is not cancelled while the
+    Pub/Sub is not closed ([x_alive] labels), whatever all other subscriptions, publishers and
+    teardowns do: every step is the abstract topic step [glab] names ([gabs] = publications with a
+    Sender for x and no Acked copy) *)
+Theorem C01_gochannel_refines_topic_step : forall x c l c', ComposeRefine.GInv x c ->
+  ComposeRefine.x_alive x l = true -> Compose.cstep c l = Some c' ->
+  ComposeRefine.GInv x c'
+  /\ tstep (ComposeRefine.gabs x c) (ComposeRefine.glab x c l c') = Some (ComposeRefine.gabs x c').
+Proof. exact ComposeRefine.compose_refines_step. Qed.
+
+Theorem C01_gochannel_refines_topic : forall x pers blk fx caps fa ls,
+  let c0 := Compose.cinit pers blk fx caps fa in
+  treplay [] (ComposeRefine.gtrace x c0 ls)
+  = Some (ComposeRefine.gabs x (ComposeRefine.grun_alive x c0 ls)).
+Proof. exact ComposeRefine.compose_topic_refines. Qed.
+
+(** no loss before the Ack *)
+Theorem C01_gochannel_no_loss_before_ack : forall x c l c' p, ComposeRefine.GInv x c ->
+  ComposeRefine.x_alive x l = true -> Compose.cstep c l = Some c' -> In p (ComposeRefine.gabs x c) ->
+  In p (ComposeRefine.gabs x c')
+  \/ exists cc, l = Compose.CSub x (LAck cc) /\ c_st (copies (Compose.ci c x) cc) = Unsettled
+                /\ c_pub (copies (Compose.ci c x) cc) = p.
+Proof. exact ComposeRefine.compose_no_loss_before_ack. Qed.
+
+(** redelivery after a Nack: the Sender's next two steps are enabled in the composed system and
+    offer a fresh, unsettled copy of the same publication *)
+Theorem C01_gochannel_redelivers_after_nack : forall x c t p cc, ComposeRefine.GInv x c ->
+  Sub.thr (Compose.ci c x) t = SWait p cc -> c_st (copies (Compose.ci c x) cc) = Nacked ->
+  exists c1, Compose.cstep c (Compose.CSub x (LSeeNacked t)) = Some c1
+    /\ exists c2, Compose.cstep c1 (Compose.CSub x (LStep t)) = Some c2
+       /\ Sub.thr (Compose.ci c2 x) t = SSend p (next (Compose.ci c x))
+       /\ c_pub (copies (Compose.ci c2 x) (next (Compose.ci c x))) = p
+       /\ c_st (copies (Compose.ci c2 x) (next (Compose.ci c x))) = Unsettled.
+Proof. exact ComposeRefine.compose_redelivers_after_nack. Qed.
+
+Theorem C01_gochannel_one_in_flight : forall x c, ComposeRefine.GInv x c ->
+  length (outstanding (Compose.ci c x)) <= 1.
+Proof. exact ComposeRefine.compose_one_in_flight. Qed.
+Print Assumptions C01_gochannel_refines_topic_step.
+Print Assumptions C01_gochannel_refines_topic.
+Print Assumptions C01_gochannel_no_loss_before_ack.
+Print Assumptions C01_gochannel_redelivers_after_nack.
+Print Assumptions C01_gochannel_one_in_flight.
 
 (** the fairness hypothesis is satisfiable: every finite script has it *)
 Theorem C01_finite_scripts_are_fair : forall k (l : list (list fault)), eventually_clean k (sc_of l).
